@@ -16,6 +16,7 @@ import (
 	"strings"
 	"syscall"
 
+	"github.com/piotrnar/gocoin/lib/btc"
 	"verif/vlib"
 )
 
@@ -70,6 +71,9 @@ func main() {
 		os.Exit(3)
 	}
 	defer o.Close()
+	// deterministic for a seed: gocoin's signer draws its nonce from crypto/rand unless told to use RFC 6979 — with random
+	// nonces the txids (hence the sorted candidate lists every generator draws from) differ from run to run
+	btc.EcdsaSignWithRFC6979 = true
 	installRunawayGuard()
 	quiet()
 	if pf := os.Getenv("C06_PROF"); pf != "" {
@@ -86,7 +90,7 @@ func main() {
 		os.Exit(0)
 	}
 
-	rule := "scenario = a block tree above a 101..108-block base chain (multi-output coinbases), 8..28 blocks, forks of depth 1..k incl. forks below the base tip, equal-work ties, invalid-when-connected blocks (double spend, missing / cross-branch input, immature coinbase, failing script, wrong key, spends of outputs locked by a HEIGHT-gated script rule — CLTV / CSV / P2WPKH with empty witness, which pass under the flags of height 0 —, overspend, coinbase overpay, own-coinbase spend, vout out of range, a transaction listed BEFORE the transaction of the same block whose output it spends — child just before its parent / child first and parent last / list reversed / random non-topological order) anywhere incl. on the winning branch and with descendants, random spend graphs (1..3 inputs, 1..4 outputs, partial spends, in-block chains; every second multi-transaction block lists its transactions in a random order that keeps each in-block spend behind its source); delivery = random topological order with children tried before parents, Idle() calls, final unwind of up to 6 blocks; second stream with the memory allocator wired and DefragAllImproved(Relocate) between deliveries; third stream random-mixed-bits: the genesis node carries bits 0x201fffff and every block is heavy (those bits) or light (0x207fffff, testnet 20-minute rule) at random, so that branches are heavier-but-not-taller, taller-but-lighter, and fall-backs after failed reorganisations see leaves of different work. fourth stream siblings: several episodes per scenario, each a parent with 3..5 children (the parent being the tip or a side block next to a competing main branch) of which one or two — mostly not the last — are invalid only when connected and arrived as side blocks, two or three of the surviving siblings' branches tie at the maximum work (delivery order inside a depth random; the first-seen leaf mostly on the earliest tied sibling), then the invalid siblings' branches become the heaviest one by one: the reorganisation fails at the sibling, DeleteBranch removes it from the middle of the child list and the FindFarthestNode fall-back shows the ORDER of the remaining children in the tip. Every stream also delivers, before about every fifth block, a TWIN of it whose previous-block field keeps only the first 8 bytes (the BlockIndex key) of the parent's hash (bytes 8..31 changed in one of four ways, nonce re-mined). Hand-made corpus scenarios first (past defects, the prev-hash twin witness of fix 533896f3, ties, ties after a failed reorganisation with first child = / != first seen, genesis fork, failed reorganisation whose common block is genesis, heavier-not-taller, failed reorganisation with mixed bits, retarget/float work). One evaluation = one delivery/idle/defrag/undo step compared three ways; distinct = distinct (tip, utxo digest, outcome) observations"
+	rule := "scenario = a block tree above a 101..108-block base chain (multi-output coinbases), 8..28 blocks, forks of depth 1..k incl. forks below the base tip, equal-work ties, invalid-when-connected blocks (double spend, missing / cross-branch input, immature coinbase, failing script, wrong key, spends of outputs locked by a HEIGHT-gated script rule — CLTV / CSV / P2WPKH with empty witness, which pass under the flags of height 0 —, overspend, coinbase overpay, own-coinbase spend, vout out of range, a transaction listed BEFORE the transaction of the same block whose output it spends — child just before its parent / child first and parent last / list reversed / random non-topological order) anywhere incl. on the winning branch and with descendants, random spend graphs (1..3 inputs, 1..4 outputs, partial spends, in-block chains; every second multi-transaction block lists its transactions in a random order that keeps each in-block spend behind its source); delivery = random topological order with children tried before parents, Idle() calls, final unwind of up to 6 blocks; second stream with the memory allocator wired and DefragAllImproved(Relocate) between deliveries; third stream random-mixed-bits: the genesis node carries bits 0x201fffff and every block is heavy (those bits) or light (0x207fffff, testnet 20-minute rule) at random, so that branches are heavier-but-not-taller, taller-but-lighter, and fall-backs after failed reorganisations see leaves of different work. fourth stream siblings: several episodes per scenario, each a parent with 3..5 children (the parent being the tip or a side block next to a competing main branch) of which one or two — mostly not the last — are invalid only when connected and arrived as side blocks, two or three of the surviving siblings' branches tie at the maximum work (delivery order inside a depth random; the first-seen leaf mostly on the earliest tied sibling), then the invalid siblings' branches become the heaviest one by one: the reorganisation fails at the sibling, DeleteBranch removes it from the middle of the child list and the FindFarthestNode fall-back shows the ORDER of the remaining children in the tip. Every stream also delivers, before about every fifth block, a TWIN of it whose previous-block field keeps only the first 8 bytes (the BlockIndex key) of the parent's hash (bytes 8..31 changed in one of four ways, nonce re-mined). sixth stream random-headers (+ random-headers-mixed-bits): the random trees delivered HEADER FIRST, the client's way — operation `header` (PreCheckBlock + AcceptHeader on the 80 header bytes) and operation `commit` (node still reachable from the root, HasAllParents, PostCheckBlock, at random Blocks.BlockAdd first, CommitBlock(bl, node)); headers run 0..3 generations or the whole tree ahead of the data, data arrives in random order (parked when a parent has no data, retried), about every sixth block comes through CheckBlock + AcceptBlock instead, headers and data are repeated (also after the block was thrown away as invalid), Idle in between, half of the scenarios with UnspentDB.CB.NotifyTxAdd/NotifyTxDel installed. In the plain random streams about every ninth step re-delivers a block (duplicate, or one that was removed as invalid). Hand-made corpus scenarios first (witnesses of fix c3d926ba: failed reorganisation with 1 / 2 / 3 announced headers above the tip; header-first sync; a block refused on the tip with announced descendants; a whole block on top of a header-only node; a side block 40 below the tip, and in thorough 2015 / 2016 below it; past defects, the prev-hash twin witness of fix 533896f3, ties, ties after a failed reorganisation with first child = / != first seen, genesis fork, failed reorganisation whose common block is genesis, heavier-not-taller, failed reorganisation with mixed bits, retarget/float work). One evaluation = one delivery/header/commit/idle/defrag/undo step compared three ways; distinct = distinct (tip, utxo digest, outcome) observations"
 	expl := "after EVERY step the real chain's tip hash + full decoded UTXO dump + outcome are compared with (a) the Lean model (oracle_c06) and (b) the property predicate evaluated by an independent Go reference: tip = first-seen maximum-exact-work node whose whole branch is valid, UTXO = replay of that branch from genesis (a tie resolved against the first-seen block counts as the known finding only in the delivery whose reorganisation failed and only when the tip is the documented first-child fall-back choice, recomputed independently; any other choice is a violation); undo files of the active branch present (model) and actually usable (final unwind on the real chain)"
 
 	if r.Replay != "" {
@@ -175,6 +179,7 @@ func main() {
 		"block look-ups: the model (deliverIdx) goes through the 8-byte BlockIndex key and compares the whole hash, as the code does since fix 533896f3; a previous-block FIELD that shares only its key with a known block is generated (twins) and must be an orphan; two different BLOCKS with the same first 8 hash bytes (2^64 work) are not generated",
 		"the model's commitTxs is a reduced one (no sigop limit, no MoneyRange on inputs/fees, no coinbase-script length): no generated side block is invalid for one of these reasons only",
 		"work is compared exactly (rationals) in model and reference; the code's float64 sums differ only on near-ties (corpus scenario o1-float-tie)",
+		"header first: the client commits a block only on a node that is still reachable from the root (its DiscardedBlocks / CheckParentDiscarded bookkeeping, represented in the harness by walking the real tree) and only when HasAllParents holds; CheckBlock + AcceptBlock is used only on top of a parent that has its data (the one scenario that does otherwise never hands that parent's data over afterwards) and never below an entry that is unreachable from the root",
 	}
 	keys := make([]string, 0, len(outcomeSeen))
 	for k := range outcomeSeen {
